@@ -158,3 +158,11 @@ func ErrorGatesProbe(p *ir.Program, pkgs ...string) []*eng.Obligation {
 	ruleErrorGates(c, pkgs...)
 	return c.Obs
 }
+
+// LockTableProbe evaluates CheckFieldLocks for one field (used by cmd/dbg).
+func LockTableProbe(p *ir.Program, pkg, typ, field, lock string) []*eng.Obligation {
+	c := eng.NewCtx(p, "probe", "quick")
+	c.Rule("PROBE", "K4")
+	c.CheckFieldLocks(eng.LockRule{Field: p.Field(pkg, typ, field), Lock: lock, Exempt: map[string]string{}}, typ+"."+field)
+	return c.Obs
+}
